@@ -91,13 +91,18 @@ def lean_nat(e, names, where):
 def lean_guard(failcond, names, where, norm):
     """the Lean Bool for `MUST (g)` given the FAILURE condition `!g` of the normal form"""
     g = norm.negate(failcond)
+    if g[0] == "id":                                     # `x` in condition position = `x != 0`
+        g = ("bin", "!=", g, ("num", 0))
+    canon = cn.walk(g, lambda x: ("id", names[x[1]]) if x[0] == "id" and x[1] in names else x)
+    if g[0] == "bin" and g[1] == "!=" and g[3] == ("num", 0):     # unsigned: x != 0 printed as the source's x > 0
+        return f"decide ({lean_nat(g[2], names, where)} > 0)", f"{show(canon[2])} > 0"
     if not (g[0] == "bin" and g[1] in ("<", "<=", "==", "!=")):
         raise ExtractFail(where, f"guard is not a comparison: `{show(g)}`")
     op = {"<": "<", "<=": "≤", "==": "=", "!=": "≠"}[g[1]]
     a, b = g[2], g[3]
     if a[0] == "num" and g[1] in ("<", "<="):            # print `0 < x` as the source's `x > 0`
-        return f"decide ({lean_nat(b, names, where)} {'>' if g[1] == '<' else '≥'} {lean_nat(a, names, where)})", f"{show(b)} {'>' if g[1] == '<' else '>='} {show(a)}"
-    return f"decide ({lean_nat(a, names, where)} {op} {lean_nat(b, names, where)})", show(g)
+        return f"decide ({lean_nat(b, names, where)} {'>' if g[1] == '<' else '≥'} {lean_nat(a, names, where)})", f"{show(canon[3])} {'>' if g[1] == '<' else '>='} {show(canon[2])}"
+    return f"decide ({lean_nat(a, names, where)} {op} {lean_nat(b, names, where)})", show(canon)
 
 
 def all_stmts(body):
@@ -145,6 +150,54 @@ def if_chain(stmts):
         chain.append((s[1], list(s[2])))
         cur = list(s[3]) if s[3] else []
     return chain, cur
+
+
+def dispatch_table(stmts, var, where):
+    """A (normalised) switch / if-else-if chain / nested ifs that only tests `var` against constants, read as a
+    decision table: ([(constant, body)…] in source order, default body).  Accepted tests: `var == K`, `var != K`,
+    `var` (≡ var != 0), disjunctions of `var == K`."""
+    rows = []
+
+    def eqs(c):
+        if c[0] == "bin" and c[1] == "||":
+            a, b = eqs(c[2]), eqs(c[3])
+            return None if a is None or b is None else a + b
+        if c[0] == "bin" and c[1] == "==" and c[2] == var and c[3][0] in ("num", "id"):
+            return [c[3]]
+        return None
+
+    def rec(body):
+        body = list(body)
+        if len(body) >= 1 and body[0][0] == "if":
+            s = body[0]
+            c = s[1]
+            rest = body[1:]
+            then, els = list(s[2]), (list(s[3]) if s[3] else None)
+            # `if (c) { …return } rest`  ≡  `if (c) {…} else { rest }`
+            if els is None and rest and then and then[-1][0] == "return":
+                els, rest = rest, []
+            if rest:
+                return None
+            ks = eqs(c)
+            if ks is not None:
+                for k in ks:
+                    rows.append((k, then))
+                return rec(els) if els is not None else []
+            ne = None
+            if c == var:
+                ne = ("num", 0)
+            elif c[0] == "bin" and c[1] == "!=" and c[2] == var and c[3][0] in ("num", "id"):
+                ne = c[3]
+            if ne is not None and els is not None:
+                r = rec(then)
+                rows.append((ne, els))
+                return r
+            return None
+        return body                                   # the default
+    dflt = rec(stmts)
+    if dflt is None:
+        raise ExtractFail(where, f"dispatch on `{show(var)}` not understood")
+    return rows, dflt
 
 
 # ------------------------------------------------------------------------------------------ templates
@@ -431,22 +484,12 @@ def generate(repo):
 
     # ------------------------------------------------------------------ errno table
     where = cpath + ":wasiErrno"
-    chain, rest = if_chain(nodecl(src.body("wasiErrno")))
+    rows_e, rest = dispatch_table(nodecl(src.body("wasiErrno")), ("id", "errno"), where)
     cases = []
-    for c, b in chain:
-        conds = []
-
-        def disj(x):
-            if x[0] == "bin" and x[1] == "||":
-                disj(x[2])
-                disj(x[3])
-            else:
-                conds.append(x)
-        disj(c)
-        for x in conds:
-            if not (x[0] == "bin" and x[1] == "==" and x[2] == ("id", "errno") and x[3][0] == "id" and len(b) == 1 and b[0][0] == "return" and b[0][1][0] == "num"):
-                raise ExtractFail(where, f"case `{show(c)}` not of the form errno == E… → return WASI_ERRNO_…")
-            cases.append((x[3][1], b[0][1][1]))
+    for k, b in rows_e:
+        if not (k[0] == "id" and len(b) == 1 and b[0][0] == "return" and b[0][1][0] == "num"):
+            raise ExtractFail(where, f"case `{show(k)}` not of the form errno == E… → return WASI_ERRNO_…")
+        cases.append((k[1], b[0][1][1]))
     if len(cases) < 10 or len(rest) != 1 or rest[0][0] != "return" or rest[0][1][0] != "num":
         raise ExtractFail(where, "wasiErrno dispatch not recognised")
     w("/-- wasiErrno(): host errno name → WASI errno value (source order) -/")
@@ -485,6 +528,26 @@ def generate(repo):
             w(f"def filestatHostCall : String := {lean_str(hname)}")
             w("/-- …and does the choice (or anything else in the function) depend on the `lookupFlags` argument? -/")
             w("def filestatUsesLookupFlags : Bool := " + ("true" if src.uses(fn, src.params(fn)[2]) else "false"))
+        if fn == "wasiPathRename":
+            # each guest path is resolved against the path of ITS OWN directory descriptor
+            pr = src.params(fn)
+            if pr != ["instance", "oldDirFD", "oldPathPointer", "oldPathLength", "newDirFD", "newPathPointer", "newPathLength"]:
+                raise ExtractFail(where, f"parameters changed: {pr}")
+            pairing = {}
+            for side in ("old", "new"):
+                e1 = src.need(fn, f"if (!wasiFileDescriptorGet({side}DirFD, &$d)) {{ return $E; }}", f"{side} descriptor lookup")
+                e2 = src.need(fn, f"$gp = (char*) $mem->data + {side}PathPointer;", f"{side} guest path pointer")
+                rs = [c for c in calls_of(body, "resolvePath") if c[2][1] == e2["gp"]]
+                if len(rs) != 1 or rs[0][2][2] != ("id", f"{side}PathLength"):
+                    raise ExtractFail(where, f"resolvePath call of the {side} path not recognised")
+                pre = rs[0][2][0]
+                e3 = src.find(fn, f"{show(pre)} = $dd.path;")
+                if e3 is None:
+                    raise ExtractFail(where, f"origin of `{show(pre)}` (directory of the {side} path) not recognised")
+                pairing[side] = "old" if e3["dd"] == src.need(fn, "if (!wasiFileDescriptorGet(oldDirFD, &$d)) { return $E; }", "old lookup")["d"] else \
+                    "new" if e3["dd"] == src.need(fn, "if (!wasiFileDescriptorGet(newDirFD, &$d)) { return $E; }", "new lookup")["d"] else "?"
+            w("/-- path_rename: the directory descriptor each guest path is resolved against (old path, new path) -/")
+            w(f"def renameResolvesAgainst : String × String := ({lean_str(pairing['old'])}, {lean_str(pairing['new'])})")
         if fn == "wasiPathSymlink":
             env2 = src.need(fn, "if ($C) { return $E; } memcpy($dst, $mem->data + oldPathPointer, oldPathLength); $dst[oldPathLength] = $T;",
                             "link-target length guard + verbatim copy")
@@ -540,10 +603,11 @@ def generate(repo):
         where = f"{cpath}:{fn}"
         params = s.params(fn)
         body = nodecl(s.body(fn))
-        idx = [i for i, st in enumerate(body) if st[0] == "if" and st[1][0] == "bin" and st[1][1] == "==" and st[1][2] == ("id", "clockID")]
+        idx = [i for i, st in enumerate(body) if st[0] == "if" and "clockID" in cn.ids_of(st[1])]
         if len(idx) != 1:
             raise ExtractFail(where, "dispatch on clockID not recognised:\n" + s.text(fn)[:2500])
-        chain, dflt = if_chain([body[idx[0]]])
+        table, dflt = dispatch_table([body[idx[0]]], ("id", "clockID"), where)
+        chain = sorted([(("bin", "==", ("id", "clockID"), k), b) for k, b in table], key=lambda r: r[0][3][1] if r[0][3][0] == "num" else 1 << 40)
         rows, overrides, var = [], [], None
         for c, b in chain:
             if not (c[0] == "bin" and c[1] == "==" and c[2] == ("id", "clockID") and c[3][0] == "num"):
@@ -615,10 +679,11 @@ def generate(repo):
     w(f"def timevalUsecScale : Nat := {tv_b}")
     # the fallback-timer configuration (-DWASI_FALLBACK_TIMERS_ENABLED=1): gettimeofday / getrusage
     fbody = nodecl(fb.body("wasiClockTimeGet"))
-    idx = [i for i, st in enumerate(fbody) if st[0] == "if" and st[1][0] == "bin" and st[1][1] == "==" and st[1][2] == ("id", "clockID")]
+    idx = [i for i, st in enumerate(fbody) if st[0] == "if" and "clockID" in cn.ids_of(st[1])]
     if len(idx) != 1:
         raise ExtractFail(cpath + ":wasiClockTimeGet[fallback]", "dispatch on clockID not recognised:\n" + fb.text("wasiClockTimeGet")[:2500])
-    chain, fdflt = if_chain([fbody[idx[0]]])
+    table, fdflt = dispatch_table([fbody[idx[0]]], ("id", "clockID"), cpath + ":wasiClockTimeGet[fallback]")
+    chain = sorted([(("bin", "==", ("id", "clockID"), k), b) for k, b in table], key=lambda r: r[0][3][1] if r[0][3][0] == "num" else 1 << 40)
     frows = []
     for c, b in chain:
         b = nodecl(b)
